@@ -2,19 +2,20 @@
 package c16
 
 import (
-	"sync"
-	"bytes"
 	"crypto/ecdsa"
+	"math/big"
+
+	"bytes"
 	"crypto/elliptic"
 	"crypto/rsa"
 	"crypto/x509"
 	"fmt"
-	"math/big"
+	secp "github.com/decred/dcrd/dcrec/secp256k1/v4"
 	"os"
 	"strings"
+	"sync"
 	"testing"
 
-	secp "github.com/decred/dcrd/dcrec/secp256k1/v4"
 	"github.com/libp2p/go-libp2p/core/crypto"
 	"github.com/libp2p/go-libp2p/core/crypto/pb"
 	"pgregory.net/rapid"
@@ -28,7 +29,7 @@ import (
 var P = h.New("C16", "exploration",
 	"(keys) deterministic keys of every generatable algorithm (Ed25519, secp256k1, P-256/384/521, RSA-2048/3072 pool, plus did.Generate* in the thorough tier) through FromPubKey -> String -> Parse -> PubKey, pairs for equality; (variants) alternative encodings of the same key material behind the right multicodec: uncompressed / hybrid / wrong-length points, odd-y flip, PKIX instead of PKCS#1, padded lengths, truncated/extended Ed25519; (strings) arbitrary and mutated identifiers: other multibase prefix, non-base58 characters, non-minimal varint, unsupported codec, trailing bytes. Reference: own base58btc + varint codec and per-codec key checks. Non-trivial = non-Ed25519 key, or a non-canonical / garbled identifier that still passes multibase decoding. Distinct by (algorithm, key index, variant) / string.")
 
-func TestMain(m *testing.M) { os.Exit(P.Main(m)) }
+func TestMain(m *testing.M)   { os.Exit(P.Main(m)) }
 func TestReplay(t *testing.T) { P.Replay(t) }
 
 // ---------- reference base58btc / varint ----------
@@ -737,4 +738,69 @@ func TestPrefixTwins(t *testing.T) {
 	}
 	P.AddDistinct(12)
 	P.Class("prefix-twins")
+}
+
+// TestCoercedSecp256k1: a secp256k1 public key held as a generic ECDSA key (crypto.ECDSAPublicKey over the
+// secp256k1 curve) is the same principal as the native key: FromPubKey gives the same DID, which yields the same
+// key. Keys are searched so that X or Y has one or two leading zero bytes (about 1 key in 128): fixed-width
+// encodings of coordinates are where such conversions go wrong.
+func TestCoercedSecp256k1(t *testing.T) {
+	ctx := &h.Ctx{P: P, T: t}
+	found := map[string]int{}
+	for i := 0; i < 6000 && (found["short-x"] < 3 || found["short-y"] < 3 || found["full"] < 6); i++ {
+		k := keys.Get(keys.Secp256k1, 1000+i)
+		raw, err := k.Priv.GetPublic().Raw() // 33-byte compressed point
+		if err != nil {
+			t.Fatalf("INCONCLUSIVE %v", err)
+		}
+		pk, err := secp.ParsePubKey(raw)
+		if err != nil {
+			t.Fatalf("INCONCLUSIVE %v", err)
+		}
+		std := pk.ToECDSA()
+		class := "full"
+		if std.X.BitLen() <= 248 {
+			class = "short-x"
+		} else if std.Y.BitLen() <= 248 {
+			class = "short-y"
+		}
+		if found[class] >= 6 {
+			continue
+		}
+		found[class]++
+		P.Eval()
+		typed, _, err := crypto.ECDSAKeyPairFromKey(&ecdsa.PrivateKey{PublicKey: *std, D: new(big.Int).SetBytes(mustRaw(k.Priv))})
+		var pub crypto.PubKey
+		if err == nil {
+			pub = typed.GetPublic()
+		} else if pub, err = crypto.ECDSAPublicKeyFromPubKey(*std); err != nil {
+			t.Fatalf("INCONCLUSIVE cannot wrap the key as a generic ECDSA key: %v", err)
+		}
+		d, err := did.FromPubKey(pub)
+		if err != nil {
+			ctx.Fail("C16/coerced/rejected/"+class, "FromPubKey refuses a valid secp256k1 key held as a generic ECDSA key (%s coordinate): %v", class, err)
+			continue
+		}
+		if d != k.DID {
+			ctx.Fail("C16/coerced/other-did/"+class, "the same secp256k1 point gives %s as a generic ECDSA key and %s as a native key (%s)", d, k.DID, class)
+			continue
+		}
+		back, err := d.PubKey()
+		if err != nil || !back.Equals(k.Priv.GetPublic()) {
+			ctx.Fail("C16/coerced/pubkey-differs/"+class, "DID of a coerced key yields another key (err=%v)", err)
+		}
+		P.Class("coerced:" + class)
+		P.NonTrivial([]any{"coerced", class, i}, map[string]any{"coerced_secp256k1": class, "did": d.String()})
+	}
+	if found["short-x"] == 0 || found["short-y"] == 0 {
+		t.Fatalf("INCONCLUSIVE no key with a short coordinate found")
+	}
+}
+
+func mustRaw(p crypto.PrivKey) []byte {
+	b, err := p.Raw()
+	if err != nil {
+		panic(err)
+	}
+	return b
 }
